@@ -321,7 +321,9 @@ func runC18(c *Ctx) {
 			// substitutions
 			sstep, per := 1, 7
 			if !c.Thorough {
-				per = 3
+				if len(v) > 1500 {
+					per = 3 // small encodings get the full alphabet also in the quick tier
+				}
 				if d.heavy {
 					sstep, per = 1+len(v)/200, 2
 				} else if len(v) > 1500 {
